@@ -95,6 +95,31 @@ type Prover struct {
 	loopHeads map[*ssa.BasicBlock]bool
 	seenLen   map[string]bool
 	found     map[*ssa.Call]bool
+	// sub maps the parameters of an expanded helper (pureExprOf) to the caller's values while its return expression is evaluated
+	sub map[ssa.Value]ssa.Value
+}
+
+// inCallee evaluates f with the parameters of the expanded helper bound to the call's arguments and the helper's single path
+// as the path that resolves its phis and spilled locals.
+func (p *Prover) inCallee(call *ssa.Call, callee *ssa.Function, path *Path, f func() LForm) LForm {
+	args := make([]ssa.Value, len(call.Call.Args))
+	for i, a := range call.Call.Args {
+		args[i] = p.resolve(a)
+	}
+	oldSub, oldPath, oldHeads := p.sub, p.Path, p.loopHeads
+	p.sub = map[ssa.Value]ssa.Value{}
+	for k, v := range oldSub {
+		p.sub[k] = v
+	}
+	for i, prm := range callee.Params {
+		if i < len(args) {
+			p.sub[prm] = args[i]
+		}
+	}
+	p.Path, p.loopHeads = path, LoopHeads(callee)
+	out := f()
+	p.sub, p.Path, p.loopHeads = oldSub, oldPath, oldHeads
+	return out
 }
 
 // LoopHeads returns the blocks of fn that are targets of a back edge.
@@ -112,6 +137,9 @@ func LoopHeads(fn *ssa.Function) map[*ssa.BasicBlock]bool {
 
 func (p *Prover) resolve(v ssa.Value) ssa.Value {
 	for i := 0; i < 8; i++ {
+		if a, ok := p.sub[v]; ok {
+			return a // an argument: already resolved in the caller's context
+		}
 		var y ssa.Value = spillOnPath(v, p.Path.Blocks)
 		if phi, ok := y.(*ssa.Phi); ok && !p.loopHeads[phi.Block()] {
 			y = resolvePhi(phi, p.Path.Blocks)
@@ -158,6 +186,11 @@ func (p *Prover) Lin(v ssa.Value) LForm {
 		if b, ok := x.Call.Value.(*ssa.Builtin); ok && (b.Name() == "len" || b.Name() == "cap") {
 			return p.LenOf(x.Call.Args[0])
 		}
+		if cal := StaticCallee(&x.Call); cal != nil {
+			if ret, path, ok := pureExprOf(cal); ok {
+				return p.inCallee(x, cal, path, func() LForm { return p.Lin(ret) })
+			}
+		}
 	}
 	return lsym(p.name(v))
 }
@@ -201,6 +234,11 @@ func (p *Prover) LenOf(v ssa.Value) LForm {
 	case *ssa.Call:
 		if b, ok := x.Call.Value.(*ssa.Builtin); ok && b.Name() == "append" && len(x.Call.Args) == 2 {
 			return p.LenOf(x.Call.Args[0]).Add(p.LenOf(x.Call.Args[1]), 1)
+		}
+		if cal := StaticCallee(&x.Call); cal != nil {
+			if ret, path, ok := pureExprOf(cal); ok {
+				return p.inCallee(x, cal, path, func() LForm { return p.LenOf(ret) })
+			}
 		}
 		if cal := StaticCallee(&x.Call); cal != nil && cal.Pkg != nil && cal.Pkg.Pkg.Path() == "bytes" && cal.Name() == "Join" {
 			if elems, ok := SliceElems(p.resolve(x.Call.Args[0])); ok {
